@@ -250,6 +250,16 @@ func c20Random(c *core.Ctx, k *core.Case) {
 	} else {
 		c.Cover("allocator_held", "pointer")
 	}
+	// Two holders of one allocator: a value copy taken BEFORE the first allocation (the library's
+	// own AppendSublist copies the sublist, and with it the by-value allocator), both used
+	// afterwards. They are one allocator: the set of live identifiers is common to both.
+	gs := []*uePolicyContainer.IDGenerator{g, g}
+	twoHolders := len(k.I) > 4 && k.I[4]&2 == 2
+	if twoHolders {
+		cp2 := *g
+		gs[1] = &cp2
+		c.Cover("allocator_held", "two-copies")
+	}
 	log := make([]c20Event, 0, n)
 	var liveGuess []int64 // workload-side memory of ids it got, to aim frees at live ids
 	mode := r.Intn(3)     // 0 balanced, 1 fill-heavy, 2 churn near full
@@ -302,7 +312,7 @@ func c20Random(c *core.Ctx, k *core.Case) {
 				}
 			}
 		}
-		e := c20Apply(g, o, true)
+		e := c20Apply(gs[r.Intn(2)], o, true)
 		if o.kind != 2 && !e.failed {
 			liveGuess = append(liveGuess, e.id)
 		}
@@ -331,6 +341,10 @@ func c20Random(c *core.Ctx, k *core.Case) {
 			for j := 0; j <= i; j++ {
 				ops = append(ops, log[j].op)
 			}
+			if twoHolders {
+				c.Fail(k, "two-holders:"+sig, fmt.Sprintf("event %d of a history on two value copies of one allocator (copied before the first allocation): %s", i, msg))
+				break
+			}
 			c.Fail(c20SeqCase(min, max, ops), sig, fmt.Sprintf("event %d of random history (seed %d): %s", i, k.I[2], msg))
 			break
 		}
@@ -340,6 +354,65 @@ func c20Random(c *core.Ctx, k *core.Case) {
 	if effFrees > c.Report().Counters["max_effective_frees_one_allocator"] {
 		c.Report().Counters["max_effective_frees_one_allocator"] = effFrees
 	}
+}
+
+// oracle "big-fill": I=[min, width, n, freeWhich] — n sequential allocations (more than 2^16 of
+// them) on one allocator, the release of one identifier (0 the first, 1 the last, 2 the middle
+// one, 3 the maximum of the range if it is live), then Allocate: it must succeed and return an
+// identifier that is not live. Bounds on the length of a scan, or counters narrower than the
+// range, show here and nowhere near the small ranges.
+func c20BigFill(c *core.Ctx, k *core.Case) {
+	min, width, n := k.I[0], k.I[1], int(k.I[2])
+	g := uePolicyContainer.NewGenerator(min, min+width-1)
+	live := make(map[int64]bool, n)
+	var ids []int64
+	for i := 0; i < n; i++ {
+		id, err := g.Allocate()
+		if err != nil || id < min || id > min+width-1 || live[id] {
+			c.Fail(k, "big-fill:allocate", fmt.Sprintf("allocation %d of %d on [%d,%d] returned %d, %v (live already: %v)", i, n, min, min+width-1, id, err, live[id]))
+			return
+		}
+		live[id] = true
+		ids = append(ids, id)
+		if i&0xfff == 0 {
+			c.J.Tick()
+		}
+	}
+	c.Eval(int64(n))
+	victim := ids[0]
+	switch k.I[3] {
+	case 1:
+		victim = ids[len(ids)-1]
+	case 2:
+		victim = ids[len(ids)/2]
+	case 3:
+		if live[min+width-1] {
+			victim = min + width - 1
+		}
+	}
+	g.FreeID(victim)
+	delete(live, victim)
+	if k.I[3] == 0 && int64(n) < width {
+		// move the scan offset behind the run of live identifiers first
+		if id, err := g.Allocate_inRange(0, width); err == nil {
+			if live[id] {
+				c.Fail(k, "big-fill:live-id-reissued", fmt.Sprintf("Allocate_inRange(0,%d) returned %d which is live", width, id))
+				return
+			}
+			live[id] = true
+			g.FreeID(id)
+			delete(live, id)
+		}
+	}
+	id, err := g.Allocate()
+	if err != nil {
+		c.Fail(k, "big-fill:spurious-exhaustion", fmt.Sprintf("Allocate failed with %d of %d identifiers live after releasing %d (range [%d,%d], %d allocated in a row)", len(live), width, victim, min, min+width-1, n))
+		return
+	}
+	if live[id] || id < min || id > min+width-1 {
+		c.Fail(k, "big-fill:live-id-reissued", fmt.Sprintf("Allocate returned %d (live %v) after releasing %d on [%d,%d]", id, live[id], victim, min, min+width-1))
+	}
+	c.Count("big_fills", 1)
 }
 
 func c20StartClass(a, rng int64) string {
@@ -367,7 +440,7 @@ func init() {
 			"Allocate_inRange results are required to be in the allocator's bounds and fresh, not inside the requested sub-range (the statement asks no more)",
 			"hook H1 (build tag verif) reports the allocator's real fields",
 		},
-		Oracles: map[string]func(*core.Ctx, *core.Case){"seq": c20Seq, "enum": c20Enum, "random": c20Random, "cold-concurrent": coldConcurrent},
+		Oracles: map[string]func(*core.Ctx, *core.Case){"seq": c20Seq, "enum": c20Enum, "random": c20Random, "cold-concurrent": coldConcurrent, "big-fill": c20BigFill},
 		Exhaustive: func(tier string) (bool, string) {
 			if tier == "thorough" {
 				return true, "all histories up to depth 4 (full alphabet, ranges 1..4) and depth 9 (reduced alphabet, ranges 1..3); longer histories sampled"
@@ -449,7 +522,7 @@ func init() {
 					} else if min+size-1 > 65535 {
 						c.Cover("range_position", "reaching above 65535")
 					}
-					k := &core.Case{Oracle: "random", Target: "uePolicyContainer.IDGenerator", I: []int64{min, min + size - 1, int64(c.R.Uint64() >> 1), 1000, int64(i % 2)}}
+					k := &core.Case{Oracle: "random", Target: "uePolicyContainer.IDGenerator", I: []int64{min, min + size - 1, int64(c.R.Uint64() >> 1), 1000, int64(i % 4)}}
 					c.Do(k)
 					c.NonTrivial(k.Hash())
 					if i < 2 {
@@ -465,6 +538,14 @@ func init() {
 					c.Do(k)
 					c.NonTrivial(k.Hash())
 					c.Cover("range_width", "above 2^32")
+				}
+				if u == 0 {
+					// more than 2^16 identifiers live in one uninterrupted run
+					for _, f := range [][4]int64{{1, 65538, 65538, 1}, {1, 65538, 65538, 3}, {0, 1<<40 + 1, 70000, 0}, {0, 65537, 65537, 2}, {5, 70000, 69999, 0}, {0, 1 << 20, 131073, 1}} {
+						k := &core.Case{Oracle: "big-fill", Target: "uePolicyContainer.IDGenerator", I: f[:]}
+						c.Do(k)
+						c.NonTrivial(k.Hash())
+					}
 				}
 				// long histories: thousands of releases on one allocator
 				for i := 0; i < c.Pick(2, 20); i++ {
